@@ -123,8 +123,9 @@ package core
 
 //@ func (*BeaconProcess).storeDKGOutput(bp, ctx, group, share) (err)
 //@   props C13
-//@   requires bp.opts != nil && groupFileOf(bp.store) != shareFileOf(bp.store)
-//@   requires sameEpoch(fcontent(groupFileOf(bp.store)), fcontent(shareFileOf(bp.store))) && sameEpoch(groupEnc(group), shareEnc(share))
+//@   requires [C13] bp.opts != nil && groupFileOf(bp.store) != shareFileOf(bp.store)
+//@   modifies bp.group, bp.share, bp.chainHash, group.GenesisSeed, tr(all), hkind(all), fexists(groupFileOf(bp.store)), fmode(groupFileOf(bp.store)), fcontent(groupFileOf(bp.store)), fexists(shareFileOf(bp.store)), fmode(shareFileOf(bp.store)), fcontent(shareFileOf(bp.store))
+//@   requires [C13] sameEpoch(fcontent(groupFileOf(bp.store)), fcontent(shareFileOf(bp.store))) && sameEpoch(groupEnc(group), shareEnc(share))
 //@   call SaveShare#0: assert [C13:a-crash-between-the-two-writes-leaves-group-and-share-of-one-epoch] sameEpoch(fcontent(groupFileOf(bp.store)), fcontent(shareFileOf(bp.store)))
 //@   ensures [C13:a-stored-dkg-output-is-a-matching-group-and-share] err == nil ==> sameEpoch(fcontent(groupFileOf(bp.store)), fcontent(shareFileOf(bp.store)))
 
@@ -132,6 +133,7 @@ package core
 //@ func (*BeaconProcess).validateGroupTransition(bp, oldGroup, newGroup) (err)
 //@   props C07
 //@   requires bp.log != nil && bp.opts != nil
+//@   modifies oldGroup.GenesisSeed, newGroup.GenesisSeed
 //@   ensures [C07:accepted-new-group-keeps-genesis-time-period-id-and-seed] err == nil && oldGroup != nil ==> newGroup.GenesisTime == oldGroup.GenesisTime && newGroup.Period == oldGroup.Period && common.canonID(newGroup.ID) == common.canonID(oldGroup.ID) && bytesEq(newGroup.GenesisSeed, oldGroup.GenesisSeed)
 //@   ensures [C07:missing-new-group-is-rejected] oldGroup == nil && newGroup == nil ==> err != nil
 
@@ -188,3 +190,12 @@ package core
 //@ func (*drandProxy).Get(d, ctx, round) (res, err)
 //@   props C01
 //@   ensures [C01:proxy-answer-is-the-requested-round-with-randomness-sha256-of-its-signature] err == nil ==> typeis(res, "*github.com/drand/drand/v2/protobuf/drand.PublicRandResponse") && as(res, "*github.com/drand/drand/v2/protobuf/drand.PublicRandResponse").Randomness == digest(256, as(res, "*github.com/drand/drand/v2/protobuf/drand.PublicRandResponse").Signature) && (round > 0 ==> as(res, "*github.com/drand/drand/v2/protobuf/drand.PublicRandResponse").Round == round)
+
+// ---- C07: the group a reshare hands over is validated against the group the node is RUNNING, then stored, then armed ----
+//@ func (*BeaconProcess).transitionToNext(bp, ctx, dkgOutput) (err)
+//@   props C07
+//@   requires dkgOutput != nil && bp.log != nil && bp.opts != nil
+//@   requires [C07] bp.beacon != nil ==> beacon.wfTransition(bp.beacon, dkgOutput.New.FinalGroup)
+//@   call validateGroupTransition#0: assert [C07:the-new-group-is-validated-against-the-group-the-node-is-running] arg1 == bp.group && arg2 == dkgOutput.New.FinalGroup && newShare == dkgOutput.New.KeyShare
+//@   call storeDKGOutput#0: assert [C07:the-group-and-share-stored-are-the-validated-ones] arg2 == newGroup && arg3 == newShare
+//@   call TransitionNewGroup#0: assert [C07:the-group-and-share-armed-are-the-validated-ones] arg2 == newShare && arg3 == newGroup
